@@ -516,3 +516,31 @@ func VF_C04_merge_order() {
 	}
 	vfReach("C04_merge_order")
 }
+
+func init() { vfRegister("VF_C04_merge_tags", VF_C04_merge_tags) }
+
+// VF_C04_merge_tags: a service declared in several files carries the tags of
+// all of them, with their priorities, in file order.
+func VF_C04_merge_tags() {
+	mk := func(f string) Input {
+		n := vfChoice(f+".n", 3)
+		var ts []Tag
+		for i := 0; i < n; i++ {
+			ts = append(ts, Tag{Name: vfStr(f+".tag", 2), Priority: vfInt(f + ".prio")})
+		}
+		return Input{Services: map[string]Service{"svc": {Tags: ts}}}
+	}
+	f1, f2, f3 := mk("f1"), mk("f2"), mk("f3")
+	got := Merge(Merge(f1, f2), f3).Services["svc"].Tags
+	var want []Tag
+	want = append(want, f1.Services["svc"].Tags...)
+	want = append(want, f2.Services["svc"].Tags...)
+	want = append(want, f3.Services["svc"].Tags...)
+	vfAssert(len(got) == len(want), "every tag of every file is kept")
+	if len(got) == len(want) {
+		for i := range want {
+			vfAssert(got[i].Name == want[i].Name && got[i].Priority == want[i].Priority, "tags keep their names, priorities and file order across merged files")
+		}
+	}
+	vfReach("C04_merge_tags")
+}
